@@ -63,6 +63,10 @@ MENU = {
     "opt": ("optimization", {"optimization_method": STUB}),
     # the documented default prior spelled out by the user: same margins as when it is omitted
     "optgp": ("optimization", {"optimization_method": STUB, "geometric_prior": {"source": "internal"}}),
+    # priors taken from the optional inputs: same margins again
+    "optsegm": ("optimization", {"optimization_method": STUB, "geometric_prior": {"source": "segm"}}),
+    "optcls": ("optimization", {"optimization_method": STUB,
+                                "geometric_prior": {"source": "classif", "classes": ["ca"]}}),
     "std": ("cost_volume_confidence", {"confidence_method": "std_intensity"}),
     "amb": ("cost_volume_confidence", {"confidence_method": "ambiguity"}),
     "wta": ("disparity", {"disparity_method": "wta"}),
@@ -82,9 +86,9 @@ MENU = {
     "ms": ("multiscale", {"multiscale_method": "fixed_zoom_pyramid"}),
 }
 MENUS = {
-    "quick": {"mc": ["sad1", "sad3", "sad5", "sad7", "ssd"], "cv": ["cbca", "opt", "optgp", "amb"],
+    "quick": {"mc": ["sad1", "sad3", "sad5", "sad7", "ssd"], "cv": ["cbca", "opt", "optgp", "optsegm", "amb"],
               "dm": ["med1", "med3", "med5", "bil0.5", "bil1", "bil6", "bil", "mfi3", "vfit", "cross", "ms"]},
-    "full": {"mc": ["sad1", "sad3", "sad5", "sad7", "ssd", "census3", "zncc9"], "cv": ["cbca", "opt", "optgp", "std", "amb"],
+    "full": {"mc": ["sad1", "sad3", "sad5", "sad7", "ssd", "census3", "zncc9"], "cv": ["cbca", "opt", "optgp", "optsegm", "optcls", "std", "amb"],
              "dm": ["med1", "med3", "med5", "med", "bil0.5", "bil1", "bil6", "bil", "mfi3", "vfit", "quad", "cross",
                     "ms"]},
     "reduced": {"mc": ["sad3", "sad7"], "cv": ["cbca", "opt"], "dm": ["med3", "bil1", "vfit", "cross", "ms"]},
@@ -207,7 +211,10 @@ def metas(shape):
     from mc.drivers import datasets as D  # pylint: disable=import-outside-toplevel
 
     if shape not in _METAS:
-        _METAS[shape] = (D.metadata(shape[0], shape[1], disp=(-2, 2)), D.metadata(shape[0], shape[1], disp=None))
+        # both images carry a segmentation and a two-class classification (optional inputs; only the optimisation
+        # priors look at them)
+        _METAS[shape] = (D.metadata(shape[0], shape[1], disp=(-2, 2), classif_bands=["ca", "cb"], segm=True),
+                         D.metadata(shape[0], shape[1], disp=None, classif_bands=["ca", "cb"], segm=True))
     return _METAS[shape]
 
 
@@ -279,8 +286,28 @@ def evaluate(tokens, env, viol, sigs, independence=False):
             if r1[0] != "ok" or r1[1] != got:
                 bad("second-round", "validation", f"margins after the first checking round only {json.dumps(r1[1])} != "
                     f"after both rounds {json.dumps(got)}")
+        if independence:
+            # the caller edits the report it was given (pads every entry): neither a later report of the same machine
+            # nor the report of another machine for the same pipeline may move
+            snapshot = _norm(got)
+            _pad(got)
+            again = machine.margins.to_dict()
+            other = real_margins(steps, shape)
+            if _norm(again) != snapshot or other[0] != "ok" or _norm(other[1]) != snapshot:
+                bad("independence", "report-aliases-the-margins", f"after the caller added 2 to every entry of the "
+                    f"report it was given, the same machine reports {json.dumps(again)} and a fresh machine "
+                    f"{json.dumps(other[1])} instead of {json.dumps(snapshot)}")
+            got = snapshot
     sigs.append(f"{tokens}|{env}|{json.dumps(got, sort_keys=True)}")
     return got["global margins"]
+
+
+def _pad(sec):
+    for k, v in list(sec.items()):
+        if isinstance(v, dict):
+            _pad(v)
+        elif isinstance(v, int):
+            sec[k] = v + 2
 
 
 def _flat(sec):
